@@ -95,7 +95,8 @@ class MaskPart(Part):
         an = ipdom.make_v4(env, 0, None, None)
         ref = ipdom.make_v4(env, 0, None, None)
         an_u = ipdom.make_v4(env, 0, None, None)
-        ctxs = ["ip address 9.9.9.9 %s", " network 9.9.9.9 mask %s area 0", "%s"]
+        ctxs = ["ip address 9.9.9.9 %s", " network 9.9.9.9 mask %s area 0", "%s", "ip route %s/9 Null0",
+                "permit 9.9.9.9/%s le 32", "(%s/24)"]
         for x in vals:
             ismask = refs.is_mask32(x)
             sp = refs.v4_spellings(x)[:2]
